@@ -341,6 +341,9 @@ def run_canary(res, build, prop):
     res2 = g.generate()
     p2 = gen.write_outputs(res2, build, name='gen_canary')
     run2 = runner.run_verus(p2, res2, rlimit=5, multiple_errors=3)
+    if run2.tool_errors and not run2.failures and run2.verified == 0:
+        # the canary file did not even compile: that says nothing about vacuity
+        return dict(checked=0, vacuous=['canary run failed: %s' % run2.tool_errors[0][:200]], skipped=[], tool_error=True)
     failed_fns = set(f.addr for f in run2.failures)
     # functions whose failure could not be mapped still show up as unsuccessful in fn_times
     vacuous = []
